@@ -1,0 +1,2 @@
+//! selected instead of `atomic.rs` with `--cfg may_verif`
+pub(crate) use crate::verif::atomic::{AtomicPtr, AtomicUsize};
